@@ -550,7 +550,7 @@ func (pc *panicChecker) locNonNilAt(f *ssa.Function, addr ssa.Value, at ssa.Inst
 	for _, b := range f.Blocks {
 		in[b] = true
 	}
-	in[f.Blocks[0]] = false
+	in[f.Blocks[0]] = pc.entryNonNil(f, addr)
 	chain := chainAddrs(addr)
 	// transfer through a block up to (excluding) stop
 	transfer := func(b *ssa.BasicBlock, start bool, stop ssa.Instruction) (bool, bool) {
@@ -725,7 +725,7 @@ func (pc *panicChecker) ensures(g *ssa.Function, path []int, depth int) bool {
 		}
 	})
 	if addr == nil {
-		return false
+		return pc.ensuresByDelegation(g, path, depth)
 	}
 	ok := true
 	nret := 0
@@ -737,7 +737,73 @@ func (pc *panicChecker) ensures(g *ssa.Function, path []int, depth int) bool {
 			}
 		}
 	})
-	return ok && nret > 0
+	if ok && nret > 0 {
+		return true
+	}
+	return pc.ensuresByDelegation(g, path, depth)
+}
+
+// ensuresByDelegation: g is a straight-line sequence of calls on its own
+// receiver (a normaliser split into phases); one of them ensures the location
+// and none of the later ones stores into that field.
+func (pc *panicChecker) ensuresByDelegation(g *ssa.Function, path []int, depth int) bool {
+	if len(g.Blocks) != 1 || len(g.Params) == 0 || len(path) == 0 {
+		return false
+	}
+	// the field key of the location (owner type and field name of the last step)
+	t := g.Params[0].Type()
+	key := ""
+	for _, step := range path {
+		if step == -1 {
+			pt, ok := t.Underlying().(*types.Pointer)
+			if !ok {
+				return false
+			}
+			t = pt.Elem()
+			continue
+		}
+		st, ok := deref(t).Underlying().(*types.Struct)
+		if !ok || step >= st.NumFields() {
+			return false
+		}
+		owner := typeStr(deref(t))
+		if nt, ok := deref(t).(*types.Named); ok {
+			owner = nt.Obj().Name()
+		}
+		key = owner + "." + st.Field(step).Name()
+		// the address of the field: type of a FieldAddr is pointer to the field type
+		t = types.NewPointer(st.Field(step).Type())
+	}
+	if key == "" {
+		return false
+	}
+	established := false
+	for _, ins := range g.Blocks[0].Instrs {
+		switch x := ins.(type) {
+		case *ssa.Call:
+			h := x.Common().StaticCallee()
+			if h != nil && pc.p.inTarget(h) && len(x.Common().Args) > 0 && x.Common().Args[0] == ssa.Value(g.Params[0]) && h != g && pc.ensures(h, path, depth+1) {
+				established = true
+				continue
+			}
+			if established && pc.fw.callWrites(x, key) {
+				established = false
+			}
+		case *ssa.Store:
+			for _, k := range storeFieldKeys(x.Addr) {
+				if k == key {
+					established = false
+				}
+			}
+		case *ssa.Return, *ssa.DebugRef:
+		default:
+			// anything else in a phase sequence is not expected
+			if _, isVal := ins.(ssa.Value); !isVal {
+				established = false
+			}
+		}
+	}
+	return established
 }
 
 func equalInts(a, b []int) bool {
@@ -1088,4 +1154,188 @@ func sameAssert(a, b ssa.Value) bool {
 	ta, ok1 := a.(*ssa.TypeAssert)
 	tb, ok2 := b.(*ssa.TypeAssert)
 	return ok1 && ok2 && !ta.CommaOk && !tb.CommaOk && ta.X == tb.X && types.Identical(ta.AssertedType, tb.AssertedType)
+}
+
+var entryBusy = map[*ssa.Function]bool{}
+
+// entryNonNil: f is a small unexported helper that is only called directly, and
+// at every call the location (a field path from the receiver) is already
+// established non-nil in the caller - by the caller's own facts, or because an
+// earlier call of the same straight-line phase sequence ensures it.
+func (pc *panicChecker) entryNonNil(f *ssa.Function, addr ssa.Value) bool {
+	if !smallHelper(f) || len(f.Params) == 0 || entryBusy[f] {
+		return false
+	}
+	path, ok := fieldPathFrom(addr, f.Params[0])
+	if !ok || len(path) == 0 {
+		return false
+	}
+	calls := pc.p.cg.callers[f]
+	if len(calls) == 0 {
+		return false
+	}
+	for _, vf := range pc.p.cg.valueFuncs {
+		if vf == f {
+			return false
+		}
+	}
+	entryBusy[f] = true
+	defer func() { entryBusy[f] = false }()
+	for _, c := range calls {
+		call, isCall := c.(*ssa.Call)
+		if !isCall || c.Common().IsInvoke() || c.Common().StaticCallee() != f || len(c.Common().Args) == 0 {
+			return false
+		}
+		g := c.Parent()
+		if g == nil || g == f {
+			return false
+		}
+		recv := c.Common().Args[0]
+		// (a) the caller has the address and knows it non-nil at the call
+		var gaddr ssa.Value
+		eachInstr(g, func(ins ssa.Instruction) {
+			if gaddr != nil {
+				return
+			}
+			if fa, ok := ins.(*ssa.FieldAddr); ok {
+				if p2, ok := fieldPathFrom(fa, recv); ok && equalInts(p2, path) && before(fa, call) {
+					gaddr = fa
+				}
+			}
+		})
+		if gaddr != nil && pc.locNonNilAt(g, gaddr, call) {
+			continue
+		}
+		// (b) an earlier call in the same block, on the same receiver, ensures it
+		established := false
+		for _, ins := range call.Block().Instrs {
+			if ins == ssa.Instruction(call) {
+				break
+			}
+			if c0, ok := ins.(*ssa.Call); ok {
+				h := c0.Common().StaticCallee()
+				if h != nil && h != f && pc.p.inTarget(h) && len(c0.Common().Args) > 0 && c0.Common().Args[0] == recv && pc.ensures(h, path, 1) {
+					established = true
+					continue
+				}
+				if established && len(c0.Common().Args) > 0 && c0.Common().Args[0] == recv {
+					// a later phase on the same receiver: it must ensure the location itself or leave the field alone
+					if h != nil && pc.p.inTarget(h) && !pc.ensures(h, path, 1) && pc.writesPathField(h, f.Params[0].Type(), path) {
+						established = false
+					}
+				}
+			}
+		}
+		if !established {
+			// (c) a dominating call on the same receiver ensures it and nothing
+			// that can store into the field lies between it and this call
+			eachInstr(g, func(ins ssa.Instruction) {
+				c0, ok := ins.(*ssa.Call)
+				if established || !ok || c0 == call || !before(c0, call) {
+					return
+				}
+				h := c0.Common().StaticCallee()
+				if h == nil || h == f || !pc.p.inTarget(h) || len(c0.Common().Args) == 0 || c0.Common().Args[0] != recv || !pc.ensures(h, path, 1) {
+					return
+				}
+				killed := false
+				eachInstr(g, func(i2 ssa.Instruction) {
+					if killed || i2 == ssa.Instruction(c0) || i2 == ssa.Instruction(call) {
+						return
+					}
+					writes := false
+					switch y := i2.(type) {
+					case *ssa.Store:
+						writes = true
+						_ = y
+					case ssa.CallInstruction:
+						h2 := y.Common().StaticCallee()
+						if h2 == nil || !pc.p.inTarget(h2) {
+							writes = pc.fw.unresolved(y)
+						} else {
+							writes = pc.writesPathField(h2, f.Params[0].Type(), path) && !pc.ensures(h2, path, 1)
+						}
+					}
+					if writes {
+						if st, isSt := i2.(*ssa.Store); isSt {
+							writes = false
+							for _, k := range storeFieldKeys(st.Addr) {
+								if pc.pathKey(f.Params[0].Type(), path) == k {
+									writes = true
+								}
+							}
+						}
+					}
+					if writes && reachableAvoiding(c0, i2, c0) && reachableAvoiding(i2, call, c0) {
+						killed = true
+					}
+				})
+				if !killed {
+					established = true
+				}
+			})
+		}
+		if !established {
+			return false
+		}
+	}
+	return true
+}
+
+// pathKey: the Owner.field key of the field a path from a receiver type ends in.
+func (pc *panicChecker) pathKey(recvT types.Type, path []int) string {
+	t := recvT
+	key := ""
+	for _, step := range path {
+		if step == -1 {
+			pt, ok := t.Underlying().(*types.Pointer)
+			if !ok {
+				return ""
+			}
+			t = pt.Elem()
+			continue
+		}
+		st, ok := deref(t).Underlying().(*types.Struct)
+		if !ok || step >= st.NumFields() {
+			return ""
+		}
+		owner := typeStr(deref(t))
+		if nt, ok := deref(t).(*types.Named); ok {
+			owner = nt.Obj().Name()
+		}
+		key = owner + "." + st.Field(step).Name()
+		t = types.NewPointer(st.Field(step).Type())
+	}
+	return key
+}
+
+// writesPathField: h (transitively) stores into the field the path ends in.
+func (pc *panicChecker) writesPathField(h *ssa.Function, recvT types.Type, path []int) bool {
+	t := recvT
+	key := ""
+	for _, step := range path {
+		if step == -1 {
+			pt, ok := t.Underlying().(*types.Pointer)
+			if !ok {
+				return true
+			}
+			t = pt.Elem()
+			continue
+		}
+		st, ok := deref(t).Underlying().(*types.Struct)
+		if !ok || step >= st.NumFields() {
+			return true
+		}
+		owner := typeStr(deref(t))
+		if nt, ok := deref(t).(*types.Named); ok {
+			owner = nt.Obj().Name()
+		}
+		key = owner + "." + st.Field(step).Name()
+		t = types.NewPointer(st.Field(step).Type())
+	}
+	if key == "" {
+		return true
+	}
+	owner := key[:strings.Index(key, ".")]
+	return pc.fw.trans[h][key] || pc.fw.trans[h][owner+".*"]
 }
